@@ -83,7 +83,7 @@ def run(ctx):
         s = vers.Scheme(r, R.version_class, 12)
         if not s.ok():
             continue
-        s.lad = [v for v in s.lad if text.version_text_ok(str(v))]
+        s.lad = [v for v in s.lad if text.version_ok(v)]
         if len(s.lad) < 4:
             continue
         for k in range(nper):
@@ -124,7 +124,7 @@ def run(ctx):
     # ---- pools of near-equal versions (not pre-sorted by the implementation): the text must not depend on the order given
     for R in classes:
         pool = gens.near_pool(r, R.version_class, 60 if ctx.tier == "quick" else 600)
-        pool = [v for v in pool if text.version_text_ok(str(v))]
+        pool = [v for v in pool if text.version_ok(v)]
         for k in range(nper):
             if len(pool) < 3:
                 break
